@@ -52,6 +52,18 @@ def cases():
         out.append({"id": f"defined/in_body/def_first_last/{where}", "feature": "ref_in_body_def_first_last", "expect": "equiv_or_error", "name": "@inner", "pattern": pat, "inlined": inl, "macros": [OTHER, inner, body_outer], "where": where})
         out.append({"id": f"undefined/in_body/{where}", "feature": "undef_in_body", "expect": "error", "name": "@inner", "pattern": pat, "macros": [body_outer, OTHER], "where": where})
         out.append({"id": f"undefined/in_body_last/{where}", "feature": "undef_in_body_last", "expect": "error", "name": "@inner", "pattern": pat, "macros": [OTHER, body_outer], "where": where})
+    # other positions INSIDE a macro body: dict value ($deref field), dict key with a times body, operator child
+    bodies = [
+        ("body_dict_value", {"name": "@outer", "pattern": [{"mov": [{"$deref": {"main_reg": "@inner", "constant_offset": "0x8"}}, "b"]}]}, {"name": "@inner", "pattern": "%rax"}, ["push", {"mov": [{"$deref": {"main_reg": "%rax", "constant_offset": "0x8"}}, "b"]}, "ret"], "att_mem"),
+        ("body_dict_key", {"name": "@outer", "pattern": [{"$and": [{"@inner": {"times": 2}}, "add"]}]}, {"name": "@inner", "pattern": "mov"}, ["push", {"$and": [{"mov": {"times": 2}}, "add"]}, "ret"], None),
+        ("body_operator_child", {"name": "@outer", "pattern": [{"$or": ["@inner", "add"]}]}, {"name": "@inner", "pattern": "mov"}, ["push", {"$or": ["mov", "add"]}, "ret"], None),
+    ]
+    for kind, outer, inner_d, inl2, dom in bodies:
+        for where in ("file", "extra"):
+            out.append({"id": f"defined/{kind}/{where}", "feature": f"ref_{kind}", "expect": "equiv", "pattern": pat, "inlined": inl2, "macros": [outer, inner_d, OTHER], "where": where, "domain": dom})
+            out.append({"id": f"undefined/{kind}/{where}", "feature": f"undef_{kind}", "expect": "error", "name": "@inner", "pattern": pat, "macros": [outer, OTHER], "where": where})
+            out.append({"id": f"undefined/{kind}_last/{where}", "feature": f"undef_{kind}", "expect": "error", "name": "@inner", "pattern": pat, "macros": [OTHER, outer], "where": where})
+            out.append({"id": f"undefined/{kind}_only/{where}", "feature": f"undef_{kind}", "expect": "error", "name": "@inner", "pattern": ["push", "@outer", "ret"], "macros": [outer], "where": where})
     # split: user in the rule file, definition in an extra file and vice versa
     out.append({"id": "defined/in_body/split_user_in_file", "feature": "ref_in_body_split", "expect": "equiv_or_error", "name": "@inner", "pattern": pat, "inlined": inl, "macros": [body_outer, OTHER], "extra_macros": [inner], "where": "mixed"})
     out.append({"id": "defined/in_body/split_def_in_file", "feature": "ref_in_body_user_first", "expect": "equiv", "pattern": pat, "inlined": inl, "macros": [inner, OTHER], "extra_macros": [body_outer], "where": "mixed"})
